@@ -92,8 +92,14 @@ class Sched:
                 st.finished = True
                 st.pending = None
                 self.main_sem.release()
-        st.real = _real_Thread(target=runner, daemon=True)
-        st.real.start()
+        if getattr(self, "raw_threads", False):
+            # threads the `threading` module knows nothing about (as started by _thread.start_new_thread, a C extension, a ctypes callback)
+            import _thread
+            st.real = None
+            _thread.start_new_thread(runner, ())
+        else:
+            st.real = _real_Thread(target=runner, daemon=True)
+            st.real.start()
         return st
 
     def yield_point(self, label, enabled=None, wake=None):
@@ -174,9 +180,15 @@ class Sched:
         for t in self.threads:
             if not t.finished:
                 t.sem.release()
+        import time as _t
         for t in self.threads:
-            t.real.join(timeout=5)
-        leaked = [t.name for t in self.threads if t.real.is_alive()]
+            if t.real is not None:
+                t.real.join(timeout=5)
+            else:
+                end = _t.time() + 5
+                while not t.finished and _t.time() < end:
+                    _t.sleep(0.001)
+        leaked = [t.name for t in self.threads if (t.real.is_alive() if t.real is not None else not t.finished)]
         Sched.current = None
         return leaked
 
